@@ -20,6 +20,9 @@ import (
 	"encoding/gob"
 	"encoding/json"
 	"fmt"
+	"gitlab.com/aquachain/aquachain/crypto"
+	"gitlab.com/aquachain/aquachain/rlp"
+	"gitlab.com/aquachain/aquachain/trie"
 	mrand "math/rand"
 	"os"
 	"os/exec"
@@ -35,9 +38,6 @@ import (
 	"gitlab.com/aquachain/aquachain/core/state"
 	"gitlab.com/aquachain/aquachain/core/types"
 	"gitlab.com/aquachain/aquachain/core/vm"
-	"gitlab.com/aquachain/aquachain/crypto"
-	"gitlab.com/aquachain/aquachain/rlp"
-	"gitlab.com/aquachain/aquachain/trie"
 	"gitlab.com/aquachain/aquachain/verifharness/vh"
 )
 
@@ -92,6 +92,14 @@ func c04BigState() *Scenario {
 	}
 	return &Scenario{Name: "c04-big-state",
 		Nodes: []NodeSpec{{}, {Parent: 0, Diff: 100, Valid: true, Fan: fan}, {Parent: 1, Diff: 100, Valid: true, Fan: 30}, {Parent: 2, Diff: 100, Valid: true}},
+		Ops:   []OpSpec{{Sess: "f", Kind: "insert", Nodes: []int{1}, Seed: 1}, {Sess: "f", Kind: "insert", Nodes: []int{2, 3}, Seed: 2}}}
+}
+
+// c04Contracts: contracts with code and no storage, with storage and their own code, two sharing one code
+// hash (one with, one without storage), and one whose storage is cleared again by a later block.
+func c04Contracts() *Scenario {
+	return &Scenario{Name: "c04-contracts",
+		Nodes: []NodeSpec{{}, {Parent: 0, Diff: 100, Valid: true, Contracts: "deploy"}, {Parent: 1, Diff: 100, Valid: true, Contracts: "clear"}, {Parent: 2, Diff: 100, Valid: true}},
 		Ops:   []OpSpec{{Sess: "f", Kind: "insert", Nodes: []int{1}, Seed: 1}, {Sess: "f", Kind: "insert", Nodes: []int{2, 3}, Seed: 2}}}
 }
 
@@ -337,15 +345,62 @@ func (r *c04Run) recKind(rec Rec) string {
 // fullState iterates the whole state (account trie, storage tries, code) at root
 // straight from the disk d.
 func fullState(d *RecDB, root common.Hash) error {
-	sdb, err := state.New(root, state.NewDatabase(d))
+	sdbase := state.NewDatabase(d) // fresh caches: everything comes from the disk d
+	sdb, err := state.New(root, sdbase)
 	if err != nil {
 		return err
 	}
 	it := state.NewNodeIterator(sdb)
 	for it.Next() {
 	}
-	return it.Error
+	if it.Error != nil {
+		return it.Error
+	}
+	// explicitly, for EVERY account of the account trie: the account decodes (balance, nonce), its
+	// whole storage trie can be walked, and its code blob is there and hashes to the code hash
+	tr, err := sdbase.OpenTrie(root)
+	if err != nil {
+		return err
+	}
+	ait := trie.NewIterator(tr.NodeIterator(nil))
+	for ait.Next() {
+		var acc state.Account
+		if err := rlp.DecodeBytes(ait.Value, &acc); err != nil {
+			return fmt.Errorf("account %x does not decode: %v", ait.Key, err)
+		}
+		statAccounts++
+		addrHash := common.BytesToHash(ait.Key)
+		if acc.Root != closureEmptyRoot {
+			st, err := sdbase.OpenStorageTrie(addrHash, acc.Root)
+			if err != nil {
+				return fmt.Errorf("storage trie %x of account %x: %v", acc.Root, ait.Key, err)
+			}
+			sit := trie.NewIterator(st.NodeIterator(nil))
+			for sit.Next() {
+			}
+			if sit.Err != nil {
+				return fmt.Errorf("storage of account %x: %v", ait.Key, sit.Err)
+			}
+		}
+		if !bytes.Equal(acc.CodeHash, closureEmptyCode) {
+			code, err := sdbase.ContractCode(addrHash, common.BytesToHash(acc.CodeHash))
+			if err != nil || len(code) == 0 {
+				return fmt.Errorf("code %x of account %x is not on disk: %v", acc.CodeHash, ait.Key, err)
+			}
+			if !bytes.Equal(crypto.Keccak256(code), acc.CodeHash) {
+				return fmt.Errorf("code of account %x does not hash to its code hash", ait.Key)
+			}
+			statCodes++
+			if acc.Root == closureEmptyRoot {
+				statCodeNoStorage++
+			}
+		}
+	}
+	return ait.Err
 }
+
+// counters for the evidence: how many accounts / code blobs / storage-less contracts the walks read
+var statAccounts, statCodes, statCodeNoStorage int
 
 type prefixOpts struct {
 	label    string // "p17" or "w18-after": goes into the signatures of unrecognised failures
@@ -1060,6 +1115,9 @@ func MainC04() {
 	// closure (root => full iteration; every node => its children) on every prefix; archive import and pruning Stop()
 	c04RunScenario(c, c04BigState(), "archive", c04Plan{convEvery: 4, closureEvery: 1, prefixEvery: 1, failEvery: c.Scale(0, 1)}, jobDir)
 	c04RunScenario(c, c04BigState(), "pruning-1-5m", c04Plan{convEvery: 4, closureEvery: 1, prefixEvery: 1, failEvery: c.Scale(0, 1)}, jobDir)
+	// (1b') contracts: code without storage, shared code, cleared storage; archive import, pruning Stop(), clean shutdown
+	c04RunScenario(c, c04Contracts(), "archive", c04Plan{convEvery: 3, closureEvery: 1, prefixEvery: 1}, jobDir)
+	c04RunScenario(c, c04Contracts(), "pruning-1-5m", c04Plan{convEvery: 3, closureEvery: 1, prefixEvery: 1}, jobDir)
 	// (1c) exhaustive failing-write sweep: every write of one short archive import and of one pruning import + Stop()
 	c04RunScenario(c, c04Short(), "archive", c04Plan{convEvery: 1, closureEvery: 1, prefixEvery: 1, failEvery: 1}, jobDir)
 	c04RunScenario(c, c04Short(), "pruning-1-5m", c04Plan{convEvery: 1, closureEvery: 1, prefixEvery: 1, failEvery: 1}, jobDir)
@@ -1089,5 +1147,8 @@ func MainC04() {
 	}
 	trieVerdict()
 	os.RemoveAll(jobDir)
+	c.Res.Distribution["state-walk:accounts-read"] = statAccounts
+	c.Res.Distribution["state-walk:code-blobs-read"] = statCodes
+	c.Res.Distribution["state-walk:contracts-with-code-and-no-storage"] = statCodeNoStorage
 	c.Finish()
 }
